@@ -1,1 +1,273 @@
-import RaftLogModel.Model.Sys
+/-
+C04 — Flush acknowledgement soundness.
+
+A positive acknowledgement (`Ev.cb i true`) is emitted only by the successful
+`fdatasync` of the newest (and by then only) file of the worker's list; at that
+moment every file the worker tracked is fully synced and the only files with
+bytes not known durable are those announced by `appendFile` requests queued
+behind the acknowledged flush. A failed sync acknowledges the whole batch
+negatively, sets `lastSyncFailed` and keeps the failed file in the list.
+Acknowledgements come out in request order, each at most once; without faults
+each exactly once.
+
+Quantification: every worker context `c` with `c.w.WF` (structural invariant of
+`step`, `applyEffs`, `settle`), every outcome (`ok`, `eio`, `short k`).
+Definitions (`pendingAppends`, `Covered`, `cbQueue`, `Worker.WF`, `stepCbs`,
+`cbsOf`, ...) are in `Proofs/WorkerBlocks.lean`.
+-/
+import RaftLogModel.Proofs.WorkerSys
+namespace RaftLog
+
+/-! ### Invariants: `Worker.WF` and `Covered` -/
+
+/-- `Worker.WF` is preserved by every worker step and by the caller side. -/
+theorem c04_wf_invariant :
+    (∀ (c : WCtx) (out : Outcome), c.w.WF → (c.step out).w.WF) ∧
+    (∀ effs fs (w : Worker) evs, w.WF → (applyEffs effs fs w evs).2.2.1.WF) ∧
+    (∀ w : Worker, w.WF → w.settle.WF) :=
+  ⟨WCtx.step_wf, applyEffs_wf, fun _ h => h.settle⟩
+
+/-- While a store is open its worker is well-formed, after every history from a
+store opened on an empty directory. -/
+theorem c04_wf_reachable (cfg : Cfg) (steps : List Step)
+    (hs : ((Sys.fresh cfg).run steps).store ≠ none) : ((Sys.fresh cfg).run steps).worker.WF :=
+  ((SysWF.fresh cfg).run steps hs).1
+
+/-- (a) Worker side: `Covered` is preserved by every step, whatever the outcome,
+unless the step kills the worker (`c.dies out`: `eio` on `write` or `unlink`). -/
+theorem c04_covered_step (c : WCtx) (out : Outcome) (hw : c.w.WF) (hd : c.dies out = false)
+    (hc : Covered c) : Covered (c.step out) :=
+  c.step_covered out hw hd hc
+
+/-- (a) What holds after a dying step: the file system is untouched, the
+worker is dead with an empty queue (so its pending `appendFile`s are lost). -/
+theorem c04_dying_step (c : WCtx) (out : Outcome) (hd : c.dies out = true) :
+    (c.step out).fs = c.fs ∧ (c.step out).w.pc = .dead ∧ (c.step out).w.queue = [] ∧
+    (c.step out).w.files = c.w.files := by
+  obtain ⟨h1, h2, _⟩ := c.step_dies out hd
+  rw [h1]; exact ⟨h2, rfl, rfl, rfl⟩
+
+/-- (a) Caller side, chunk rotation (`Store.tryCloseFull`: create newId; write
+head; optional `send write`; `send appendFile newId`): with a live worker every
+send succeeds and coverage is preserved. -/
+theorem c04_covered_rotate (s : Store) (fsHas : Nat → Bool) (fs : Fs) (w : Worker) (evs : List Ev)
+    (hp : w.pc ≠ .dead) (hc : CoveredFW fs w) :
+    (applyEffs (s.tryCloseFull fsHas).2.2 fs w evs).1 = true ∧
+    CoveredFW (applyEffs (s.tryCloseFull fsHas).2.2 fs w evs).2.1
+      (applyEffs (s.tryCloseFull fsHas).2.2 fs w evs).2.2.1.settle :=
+  ⟨(tryCloseFull_covered s fsHas fs w evs hp hc).1, (tryCloseFull_covered s fsHas fs w evs hp hc).2.settle⟩
+
+/-- (a) Caller side, `Store.flush` (`send write`; optional `send removeChunks`). -/
+theorem c04_covered_flush (s : Store) (cb : Option Nat) (fs : Fs) (w : Worker) (evs : List Ev)
+    (hp : w.pc ≠ .dead) (hc : CoveredFW fs w) :
+    (applyEffs (s.flush cb).2 fs w evs).1 = true ∧
+    (applyEffs (s.flush cb).2 fs w evs).2.1 = fs ∧
+    CoveredFW fs (applyEffs (s.flush cb).2 fs w evs).2.2.1.settle :=
+  ⟨(flush_covered s cb fs w evs hp hc).1, (flush_covered s cb fs w evs hp hc).2.1,
+   (flush_covered s cb fs w evs hp hc).2.2.settle⟩
+
+/-- (a) System level: every public call (any `Op`, accepted or rejected, with
+any number of chunk rotations) and every flush on a store whose worker is alive
+keeps the unsynced files covered; so does every worker step that does not kill
+the worker. -/
+theorem c04_covered_sys (y : Sys) (h : CoveredFW y.fs y.worker) :
+    (y.worker.pc ≠ .dead → ∀ op, CoveredFW (y.call op).2.1.fs (y.call op).2.1.worker) ∧
+    (y.worker.pc ≠ .dead → ∀ cb, CoveredFW (y.flush cb).2.1.fs (y.flush cb).2.1.worker) ∧
+    (y.worker.WF → ∀ out (s : Store),
+      (({ w := y.worker, fs := y.fs, cache := s.cache } : WCtx).dies out) = false →
+      CoveredFW (y.workerStep out).1.fs (y.workerStep out).1.worker) :=
+  ⟨fun hp op => SysCovered.call h hp op, fun hp cb => SysCovered.flush h hp cb,
+   fun hw out s hd => SysCovered.workerStep h hw out s hd⟩
+
+/-! ### (b) A positive acknowledgement means everything tracked is synced -/
+
+theorem mem_stepCbs_true {c : WCtx} {out : Outcome} {i : Nat} (h : (i, true) ∈ stepCbs c out) :
+    ∃ b t, c.w.pc = .syncNew b t ∧ out ≠ .eio ∧ i ∈ b.filterMap WReq.cbId := by
+  unfold stepCbs at h
+  cases hpc : c.w.pc with
+  | syncNew b t =>
+    simp only [hpc, batchCbs, List.mem_map, Prod.mk.injEq] at h
+    obtain ⟨j, hj, rfl, ho⟩ := h
+    exact ⟨b, t, rfl, by simpa using ho, hj⟩
+  | syncOld b t =>
+    simp only [hpc] at h
+    split at h
+    · simp [batchCbs] at h
+    · cases h
+  | _ => simp [hpc] at h
+
+theorem WCtx.step_syncNew_ok {c : WCtx} {out : Outcome} {b : List WReq} {t : Option WReq} {f : FileEnt}
+    {rest : List FileEnt} (hpc : c.w.pc = .syncNew b t) (hf : c.w.files = f :: rest) (ho : out ≠ .eio) :
+    c.step out = (c.synced f.id).finishBatch b t true := by
+  cases out with
+  | eio => exact absurd rfl ho
+  | ok => simp [WCtx.step, hpc, hf, WCtx.synced]
+  | short k => simp [WCtx.step, hpc, hf, WCtx.synced]
+
+theorem WCtx.step_sync_eio {c : WCtx} {b : List WReq} {t : Option WReq} {f : FileEnt}
+    {rest : List FileEnt} (hpc : c.w.pc = .syncOld b t ∨ c.w.pc = .syncNew b t) (hf : c.w.files = f :: rest) :
+    c.step .eio = (c.emit (.sync "w" f.id false)).finishBatch b t false := by
+  rcases hpc with hpc | hpc <;> simp [WCtx.step, hpc, hf]
+
+/-- (b) A positive acknowledgement is emitted only by a `syncNew` step with a
+non-`eio` outcome, for a callback of the batch in hand. -/
+theorem c04_ack_only_from_syncNew (c : WCtx) (out : Outcome) (i : Nat) (hw : c.w.WF)
+    (hnew : Ev.cb i true ∉ c.evs) (h : Ev.cb i true ∈ (c.step out).evs) :
+    ∃ b t f, c.w.pc = .syncNew b t ∧ c.w.files = [f] ∧ out ≠ .eio ∧ i ∈ b.filterMap WReq.cbId := by
+  have h1 := mem_cbsOf.mpr h
+  rw [c.step_cbsOf out hw, List.mem_append] at h1
+  rcases h1 with h1 | h1
+  · exact absurd (mem_cbsOf.mp h1) hnew
+  · obtain ⟨b, t, hpc, ho, hi⟩ := mem_stepCbs_true h1
+    simp only [Worker.WF, hpc] at hw
+    match hf : c.w.files, hw with
+    | [f], _ => exact ⟨b, t, f, hpc, rfl, ho, hi⟩
+
+/-- (b) At the moment of a positive acknowledgement: the step synced the one
+file `f` the worker tracked; every file with that id is fully durable; the
+worker's list is `f` plus the file of a trailing `appendFile`; and every linked
+file that still has bytes not known durable was announced by an `appendFile`
+request that was queued behind the acknowledged flush (`pendingAppends` of the
+state before: the trailing request and the queue). -/
+theorem c04_ack_means_synced (c : WCtx) (out : Outcome) (i : Nat) (hw : c.w.WF) (hc : Covered c)
+    (hnew : Ev.cb i true ∉ c.evs) (h : Ev.cb i true ∈ (c.step out).evs) :
+    ∃ b t f, c.w.pc = .syncNew b t ∧ c.w.files = [f] ∧ out ≠ .eio ∧
+      (c.step out).fs = c.fs.sync f.id ∧
+      (∀ g ∈ (c.step out).fs, g.id = f.id → g.durable = g.data.length) ∧
+      (c.step out).w.files = [f] ++ tailEnts t ∧
+      pendingAppends c.w = (tailEnts t).map FileEnt.id ++ pendingAppends (c.step out).w ∧
+      (∀ g ∈ (c.step out).fs, g.durable < g.data.length → g.linked = true →
+        g.id ∈ pendingAppends c.w) := by
+  obtain ⟨b, t, f, hpc, hf, ho, _⟩ := c04_ack_only_from_syncNew c out i hw hnew h
+  refine ⟨b, t, f, hpc, hf, ho, ?_⟩
+  rw [WCtx.step_syncNew_ok hpc hf ho]
+  refine ⟨by simp, ?_, by simp [hf], ?_, ?_⟩
+  · intro g hg hid
+    rcases Fs.mem_sync (by simpa using hg) with ⟨_, h1⟩ | ⟨h1, _⟩
+    · exact h1
+    · exact absurd hid h1
+  · have h1 : pendingAppends ((c.synced f.id).finishBatch b t true).w =
+        c.w.queue.filterMap WReq.appendId := by simp [pendingAppends]
+    rw [h1, tailEnts_ids]
+    simp only [pendingAppends, hpc, WPc.held, List.filterMap_append]
+  · intro g hg hu hl
+    rcases Fs.mem_sync (by simpa using hg) with ⟨_, h1⟩ | ⟨h1, h2⟩
+    · omega
+    · rcases hc g h2 hu hl with h3 | h3
+      · rw [hf] at h3; simp at h3; exact absurd h3 h1
+      · exact h3
+
+/-! ### (c) A failed sync -/
+
+/-- (c) A `syncOld`/`syncNew` step with outcome `eio`: every callback of the
+batch is acknowledged negatively (and nothing positively), `lastSyncFailed`
+becomes true, the file whose sync failed stays in the list, and the file
+system is untouched. -/
+theorem c04_negative_after_failed_sync (c : WCtx) (b : List WReq) (t : Option WReq) (hw : c.w.WF)
+    (hpc : c.w.pc = .syncOld b t ∨ c.w.pc = .syncNew b t) :
+    ∃ f rest, c.w.files = f :: rest ∧
+      Ev.sync "w" f.id false ∈ (c.step .eio).evs ∧
+      cbsOf (c.step .eio).evs = cbsOf c.evs ++ (b.filterMap WReq.cbId).map (fun i => (i, false)) ∧
+      (∀ i ∈ b.filterMap WReq.cbId, Ev.cb i false ∈ (c.step .eio).evs) ∧
+      (∀ i, Ev.cb i true ∈ (c.step .eio).evs → Ev.cb i true ∈ c.evs) ∧
+      (c.step .eio).w.lastSyncFailed = true ∧
+      f ∈ (c.step .eio).w.files ∧ c.w.files <+: (c.step .eio).w.files ∧
+      (c.step .eio).fs = c.fs := by
+  have hne : c.w.files ≠ [] := hw.files_ne (by rcases hpc with h | h <;> simp [h])
+  match hf : c.w.files, hne with
+  | f :: rest, _ =>
+    have hcbs : cbsOf (c.step .eio).evs = cbsOf c.evs ++ (b.filterMap WReq.cbId).map (fun i => (i, false)) := by
+      rw [c.step_cbsOf .eio hw]
+      rcases hpc with h | h <;> simp [stepCbs, h, batchCbs]
+    refine ⟨f, rest, rfl, ?_, hcbs, ?_, ?_, ?_, ?_, ?_, ?_⟩
+    · rw [WCtx.step_sync_eio hpc hf]
+      obtain ⟨r, h1, _⟩ := (c.emit (.sync "w" f.id false)).finishBatch_evs b t false
+      rw [h1]; simp
+    · intro i hi
+      apply mem_cbsOf.mp
+      rw [hcbs]; simp only [List.mem_append, List.mem_map]
+      exact .inr ⟨i, hi, rfl⟩
+    · intro i hi
+      have := mem_cbsOf.mpr hi
+      rw [hcbs, List.mem_append] at this
+      rcases this with h | h
+      · exact mem_cbsOf.mp h
+      · simp at h
+    · rw [WCtx.step_sync_eio hpc hf]; simp
+    · rw [WCtx.step_sync_eio hpc hf]; simp [hf]
+    · rw [WCtx.step_sync_eio hpc hf]; simp [hf]
+    · rw [WCtx.step_sync_eio hpc hf]; simp
+
+/-! ### (d) Order and uniqueness of acknowledgements -/
+
+/-- (d) One step: the acknowledgements it emits (`stepCbs`, in event order) are
+taken from the front of the callback queue and the rest stays queued; a dying
+step emits none and reports every queued callback as dropped. -/
+theorem c04_step_cbs (c : WCtx) (out : Outcome) (hw : c.w.WF) :
+    cbsOf (c.step out).evs = cbsOf c.evs ++ stepCbs c out ∧
+    (c.dies out = false → cbQueue c.w = (stepCbs c out).map Prod.fst ++ cbQueue (c.step out).w) ∧
+    (c.dies out = true → stepCbs c out = [] ∧ (c.step out).w.pc = .dead ∧ cbQueue (c.step out).w = [] ∧
+      ∀ i ∈ cbQueue c.w, Ev.cbDropped i ∈ (c.step out).evs) := by
+  refine ⟨c.step_cbsOf out hw, c.step_cbQueue out hw, fun hd => ⟨stepCbs_of_dies hd, ?_, ?_,
+    c.step_dies_dropped out hd⟩⟩
+  · rw [(c.step_dies out hd).1]
+  · rw [cbQueue, (c.step_dies out hd).1]; rfl
+
+/-- (d) Over any run (any outcomes, including the death of the worker) the
+acknowledged callback ids are, in order, a prefix of the callback queue at the
+start: request order, none invented. -/
+theorem c04_cbs_in_request_order (c : WCtx) (outs : List Outcome) (hw : c.w.WF) :
+    ∃ l, cbsOf (c.runOuts outs).evs = cbsOf c.evs ++ l ∧ l.map Prod.fst <+: cbQueue c.w :=
+  c.runOuts_cbs_prefix outs hw
+
+/-- (d) Hence no callback is acknowledged more often than it was queued; with
+distinct callback ids each is acknowledged at most once. -/
+theorem c04_cb_at_most_once (c : WCtx) (outs : List Outcome) (hw : c.w.WF) :
+    ∃ l, cbsOf (c.runOuts outs).evs = cbsOf c.evs ++ l ∧
+      (∀ i, (l.map Prod.fst).count i ≤ (cbQueue c.w).count i) ∧
+      ((cbQueue c.w).Nodup → (l.map Prod.fst).Nodup) := by
+  obtain ⟨l, h1, h2⟩ := c.runOuts_cbs_prefix outs hw
+  exact ⟨l, h1, fun i => h2.sublist.count_le i, fun hn => hn.sublist h2.sublist⟩
+
+/-- (d) No fault: any fuel `n ≥ drainCost` brings the worker to a quiet state
+and every queued callback is acknowledged positively exactly once, in request
+order. -/
+theorem c04_exactly_once_no_fault_measure (c : WCtx) (n : Nat) (hw : c.w.WF) (hn : c.w.drainCost ≤ n) :
+    (WCtx.runQuiet n c).w.quiet = true ∧
+    cbsOf (WCtx.runQuiet n c).evs = cbsOf c.evs ++ (cbQueue c.w).map fun i => (i, true) :=
+  ⟨WCtx.runQuiet_quiet n c hn, WCtx.runQuiet_cbs_exact n c hw hn⟩
+
+/-- (d) The same with the model's own `Worker.fuel` (sufficient: see C14;
+`TodoOK` is an invariant of reachable states, `c14_todoOK_reachable`). -/
+theorem c04_exactly_once_no_fault (c : WCtx) (hw : c.w.WF) (ht : c.w.TodoOK) :
+    (WCtx.runQuiet c.w.fuel c).w.quiet = true ∧
+    cbsOf (WCtx.runQuiet c.w.fuel c).evs = cbsOf c.evs ++ (cbQueue c.w).map fun i => (i, true) := by
+  apply c04_exactly_once_no_fault_measure c _ hw
+  have := c.w.drainCost_le_fuel ht
+  omega
+
+/-! ### Non-vacuity -/
+
+/-- Two flushes (callbacks 7, 8), then a rotation announcing file 9 which
+already has an unsynced head. -/
+def c04Demo : WCtx :=
+  { w := { files := [⟨0, none⟩],
+           pc := .got (.write 3 [1, 2, 3] (some 7)),
+           queue := [.write 5 [4, 5] (some 8), .appendFile 9 none] },
+    fs := [{ id := 0 }, { id := 9, data := [0] }],
+    cache := { maxItems := 4, capacity := 100 } }
+
+example : c04Demo.w.WF ∧ cbQueue c04Demo.w = [7, 8] ∧ pendingAppends c04Demo.w = [9] := by decide
+
+/-- After collecting the batch and two writes the worker is parked at the sync
+of the newest file; the step acknowledges 7 then 8; file 9 is still unsynced. -/
+example :
+    cbsOf ((c04Demo.runOuts [.ok, .ok, .short 1, .ok]).step .ok).evs = [(7, true), (8, true)] ∧
+    ((c04Demo.runOuts [.ok, .ok, .short 1, .ok]).step .ok).fs =
+      [{ id := 0, data := [1, 2, 3, 4, 5], durable := 5 }, { id := 9, data := [0] }] := by
+  decide
+
+example : cbsOf ((c04Demo.runOuts [.ok, .ok, .short 1, .ok]).step .eio).evs = [(7, false), (8, false)] := by
+  decide
+
+end RaftLog
